@@ -191,6 +191,7 @@ const preludeBase = `(set-option :produce-models true)
 (declare-fun fld_base (Int) Int)
 (declare-fun fld_id (Int) Int)
 (declare-fun obj_root (Int) Int)
+(declare-fun elemtag (Int) Int)
 (declare-fun sidx (Int Int) Int)
 (assert (forall ((o Int) (k Int)) (! (= (sidx o k) (+ o k)) :pattern ((sidx o k)))))
 (declare-fun wraps (Iface Iface) Bool)
